@@ -38,6 +38,19 @@ def run(tier):
             continue
         run_one(rep, res, exe, wd, name)
         os.remove(res.out_path)
+    # owning arrays with index bases: copying, assignment, reextent by index extensions, equality of values
+    from checks import arrays
+    from checks.c04 import consts as aconsts
+    exe_int = arrays.build(wd, 0)
+    aops = ["ctor_ext", "ctor_iota", "ctor_copy", "ctor_move", "ctor_view", "decay", "assign_copy", "assign_move", "assign_view", "swap",
+            "write", "destroy", "reextent", "reextent_fill", "clear", "reshape"]
+    aplan = [("c19_arr_d1", aconsts(1, 2, 3, True, aops)), ("c19_arr_d2", aconsts(2, 2, 2, True, aops))]
+    if tier == "thorough":
+        aplan += [("c19_arr_d2_deep", aconsts(2, 2, 3, True, aops)), ("c19_arr_d3", aconsts(3, 2, 2, True, aops))]
+    for name, c in aplan:
+        c["ABases"] = vlib.Sub("ABasesMixed" if c["DimD"] == 1 or tier == "thorough" else "ABasesTwo")
+        arrays.run_config(rep, "C19", name, c, exe_int, wd, len(c["Slots"]), check_first=True, sig_extra={"part": "arrays"})
+    rep.notes.pop("_nontrivial", None); rep.notes.pop("_last_exps", None); rep.notes.pop("_last_obs", None)
     rep.assumptions = ["index bases of derived views are taken from the code-shaped model only to form in-domain "
                        "arguments; a program whose prefix shows a different base in the real library is skipped, "
                        "not judged", "explicit bases (construction from index extensions, reindexed, blocked) are demanded"]
